@@ -311,7 +311,12 @@ def _hashseed(case, a):
 def cases(rng, tier):
     n = 60 if tier == 'quick' else 1500
     g = gen.Gen(rng, max_depth=4)
-    pool = SPECIAL + _host_state_programs() + [render(g.program()) for _ in range(40)] + [render(gen.gen_illtyped(rng, g)) for _ in range(15)]
+    # programs of the fragment of the call-by-name reference semantics: for these `C20.session_isolated` is a theorem — in any
+    # heap earlier evaluations left behind each yields its by-name value — and the stand-alone cases below also compare the
+    # implementation with the executable reference semantics (`bn`)
+    from . import c02 as _c02
+    core = [_c02.core_program(rng, rng.randint(2, 5)) for _ in range(25)]
+    pool = SPECIAL + _host_state_programs() + [render(g.program()) for _ in range(40)] + [render(gen.gen_illtyped(rng, g)) for _ in range(15)] + core
     sessions = []
     for _ in range(n):
         k = rng.randint(2, 12)
@@ -342,7 +347,11 @@ def cases(rng, tier):
     yield Case(program="ㄱ", tag='history', monitor='c20_history', data=_history_items(), skip_model=True, timeout=900)
     # stand-alone outcome of every pool program equals the model's (so "stand-alone" means the specified outcome)
     for p in pool:
-        yield Case(program=p, fs=FS, stdin="in1\nin2\n", tag='standalone')
+        yield Case(program=p, fs=FS, stdin="in1\nin2\n", tag='standalone', big=(p in core))
+    # sessions made of fragment programs only (the exact situation of the theorem), long and with many repetitions
+    for _ in range(6 if tier == 'quick' else 60):
+        progs = [rng.choice(core) for _ in range(rng.randint(8, 20))]
+        yield Case(program="ㄱ", fs=FS, stdin="in1\nin2\n", tag='session-core', monitor='c20_session', data=progs, skip_model=True, timeout=900)
     # hash seeds: dictionaries / equality / printing heavy programs
     hs = []
     for _ in range(40 if tier == 'quick' else 400):
